@@ -136,6 +136,19 @@ QWidget {
 }
 """
 
+# callback parameters of value-class types are the handler's own copies: they are assigned, their members written, they are copied
+GADGET_PARAM_QML = """import qmluic.QtWidgets
+QWidget {
+    id: root
+    VfWidget { id: t0 }
+    VfWidget { id: s0; onFonted: function(f: QFont) { f.pointSize = 20; f.bold = !f.bold; t0.font = f } }
+    VfWidget { id: s1; onFonted: function(f: QFont) { let g = f; g.pointSize = 7; f = g; console.log(f.pointSize, g.italic) } }
+    VfWidget { id: s2; onFonted2: function(n: int, f: QFont) { f.pointSize = n + f.pointSize; t0.ival = f.pointSize } }
+    VfWidget { id: s3; onFonted: (f: QFont) => { f = t0.font; t0.ival = f.pointSize } }
+    VfWidget { id: s4; onFonted2: function(n: int) { t0.ival = n } }
+}
+"""
+
 # the only user of console.* is a CONSTANT member of a gadget group that also has a dynamic member (the group is then
 # evaluated by the support code, constant members included)
 INCLUDE_QML = """import qmluic.QtWidgets
@@ -210,6 +223,10 @@ def run(tier, seed, replay=None):
     raw2.source, raw2.kind, raw2.bindings, raw2.type_name = INCLUDE_QML, "include-hazard", [], "MyType"
     raw2.drop_rejected = lambda diags: []
     docs.append(raw2)
+    raw3 = Raw()
+    raw3.source, raw3.kind, raw3.bindings, raw3.type_name = GADGET_PARAM_QML, "value-class-callback-parameters", [], "MyType"
+    raw3.drop_rejected = lambda diags: []
+    docs.append(raw3)
     if replay:
         rp = json.load(open(replay))
         docs = [d for d in docs if d.source == rp.get("qml")]
